@@ -26,11 +26,11 @@ BUDGET_S = {"quick": 25, "thorough": 600}
 FLOORS = {
     "quick": {"evaluations": 30000, "distinct": 8000,
               "counters": {"lookahead_on_iterator": 5000, "else_taken": 1000, "filtered": 2000,
-                           "recursive": 100, "async_iterable": 1000, "wrapped_queries": 300,
+                           "recursive": 100, "recursive_in_recursive": 15, "async_iterable": 1000, "wrapped_queries": 300,
                            "iterables_with_undefined_elements": 30}},
     "thorough": {"evaluations": 300000, "distinct": 60000,
                  "counters": {"lookahead_on_iterator": 50000, "else_taken": 10000, "filtered": 20000,
-                              "recursive": 2000, "async_iterable": 10000, "wrapped_queries": 3000,
+                              "recursive": 2000, "recursive_in_recursive": 300, "async_iterable": 10000, "wrapped_queries": 3000,
                               "iterables_with_undefined_elements": 1000}},
 }
 
@@ -212,9 +212,18 @@ def recursive_case(ctx, envs, rng):
 
     data = tree(3)
     q = rng.sample(["depth", "depth0", "index", "revindex", "first", "last", "length"], 3)
+    inner = []
+    if rng.random() < 0.35:
+        # a recursive loop directly in the body of a recursive loop: each has its own `loop`
+        ctx.count("recursive_in_recursive")
+        inner = [["for", ["m"], ["attr", N("n"), "c"],
+                  [["text", "<"], ["out", ["attr", N("m"), "v"]], ["out", ["attr", N("loop"), rng.choice(q)]],
+                   ["out", ["call", N("loop"), [["attr", N("m"), "c"]], []]], ["text", ">"]],
+                  None, None, True]]
     body = [["for", ["n"], N("tree"),
              [["text", "("], ["out", ["attr", N("n"), "v"]], ["text", ":"]]
              + sum([[["out", ["attr", N("loop"), a]], ["text", ","]] for a in q], [])
+             + inner
              + [["out", ["call", N("loop"), [["attr", N("n"), "c"]], []]], ["text", ")"]],
              [["text", "E"]] if rng.random() < 0.5 else None, None, True]]
     src = jast.ps(body)
